@@ -67,6 +67,15 @@ Theorem C07_source_map_names_distinct : forall o p prior c sm, run_generate o p 
 Proof. exact run_generate_nodup. Qed.
 Print Assumptions C07_source_map_names_distinct.
 
+(* schedule-independence of a whole run, all four subcommands, -file= / -type=*: two runs from the same directory
+   state that differ only in the iteration order of every Go map compute the same source map *)
+Theorem C07_schedule_independent : forall p prior c o1 o2,
+  legal o1 -> legal o2 -> specified c = false ->
+  (c_sub c = CRest -> rest_pkg_ok (p_hw p)) ->
+  run_generate o1 p prior c = run_generate o2 p prior c.
+Proof. exact schedule_independent_unspecified. Qed.
+Print Assumptions C07_schedule_independent.
+
 (* schedule- and history-independence: enum and rest with -file= / -type=*, for ALL oracles and ALL directory
    contents (current output, stale output, anything else) *)
 Theorem C07_enum_run_independent : forall p c o1 o2 prior1 prior2,
@@ -117,6 +126,14 @@ Theorem C07_rest_twice_is_fixpoint : forall p c o1 o2 prior w dir,
 Proof. exact rest_twice_fixpoint. Qed.
 Print Assumptions C07_rest_twice_is_fixpoint.
 
+Theorem C07_new_twice_is_fixpoint : forall p c o1 o2 prior w dir,
+  c_sub c = CNew -> specified c = false -> c_sepflag c = true -> no_embedding (hand_of (p_hw p)) ->
+  legal o1 -> legal o2 -> NoDup (keys prior) ->
+  run o1 p prior c = ODone w dir ->
+  exists w' dir', run o2 p dir c = ODone w' dir' /\ listing dir' = listing dir /\ Permutation w' w.
+Proof. exact new_twice_fixpoint. Qed.
+Print Assumptions C07_new_twice_is_fixpoint.
+
 (* the analysis of a type never depends on the hand-written part of the view through generated files *)
 Theorem C07_hand_part_independent_of_generated_files : forall hw disk ov,
   hand_decls (mk_view hw disk ov) = hand_decls (mk_view hw [] []).
@@ -145,3 +162,10 @@ Proof.
                                          ss_items := [IEmbed "Base" false false; IField (fld "k" "string")] |}) (hand_of hw_eo)) by (left; reflexivity).
   specialize (H _ _ _ Hin). inversion H as [|? ? Hx _]. exact Hx.
 Qed.
+
+Example C07_example_rest_guard :
+  rest_pkg_ok [hfile1 "api.go" [HIface {| ri_name := "A"; ri_headers := [("X-Api", "k")];
+                                          ri_methods := [ {| rm_name := "Ping"; rm_hasdoc := true; rm_verb := "GET"; rm_path := "/a/{id}";
+                                                             rm_pparams := ["id"]; rm_alias := [("uid", "id"); ("page", "p")];
+                                                             rm_params := []; rm_result := ""; rm_result_ptr := false |} ] |}]].
+Proof. apply rest_pkg_okb_ok. reflexivity. Qed.
